@@ -274,3 +274,68 @@ func (db *RockDB) collPersist(ts int64, dt byte, key []byte) (int64, error) {
 	rawV := db.expiration.encodeToRawValue(dt, oldh)
 	return db.ExpireAt(dt, key, rawV, 0)
 }
+
+// The write paths of the collection types test whether an element exists against the
+// committed data while the effects of the current command still sit in the write batch,
+// so an element named twice in one command must be reduced to one occurrence first:
+// otherwise it is counted twice (and, on removal, the size drops to zero while elements
+// remain, which makes them unreachable).
+
+// uniqueArgs keeps the first occurrence of every element.
+func uniqueArgs(args [][]byte) [][]byte {
+	if len(args) < 2 {
+		return args
+	}
+	seen := make(map[string]struct{}, len(args))
+	out := make([][]byte, 0, len(args))
+	for _, a := range args {
+		if _, ok := seen[string(a)]; ok {
+			continue
+		}
+		seen[string(a)] = struct{}{}
+		out = append(out, a)
+	}
+	return out
+}
+
+// uniqueFieldsKeepLast keeps, for every field, its last value (the one that wins in redis).
+func uniqueFieldsKeepLast(args []common.KVRecord) []common.KVRecord {
+	if len(args) < 2 {
+		return args
+	}
+	last := make(map[string]int, len(args))
+	for i, a := range args {
+		last[string(a.Key)] = i
+	}
+	if len(last) == len(args) {
+		return args
+	}
+	out := make([]common.KVRecord, 0, len(last))
+	for i, a := range args {
+		if last[string(a.Key)] == i {
+			out = append(out, a)
+		}
+	}
+	return out
+}
+
+// uniqueMembersKeepLast keeps, for every member, its last score.
+func uniqueMembersKeepLast(args []common.ScorePair) []common.ScorePair {
+	if len(args) < 2 {
+		return args
+	}
+	last := make(map[string]int, len(args))
+	for i, a := range args {
+		last[string(a.Member)] = i
+	}
+	if len(last) == len(args) {
+		return args
+	}
+	out := make([]common.ScorePair, 0, len(last))
+	for i, a := range args {
+		if last[string(a.Member)] == i {
+			out = append(out, a)
+		}
+	}
+	return out
+}
